@@ -78,7 +78,9 @@ type Ctx struct {
 	inconcl    int64
 	inconclWhy map[string]int64
 	curCase    string
+	curK       *Case
 	progress   *os.File
+	outPath    string
 }
 
 const maxDistinct = 4 << 20
@@ -245,6 +247,7 @@ func (c *Ctx) runCase(kd *Kind, cs uint64) {
 	k := &Case{C: c, R: rand.New(rand.NewSource(int64(cs))), Kind: kd.Name, Seed: cs, evals: 0}
 	c.mu.Lock()
 	c.curCase = fmt.Sprintf("%s/%d", kd.Name, cs)
+	c.curK = k
 	if c.progress != nil {
 		var b [8]byte
 		binary.LittleEndian.PutUint64(b[:], cs)
